@@ -18,7 +18,11 @@ CONSTANTS MaxT,       \* external adds use times 0..MaxT
           Menu,       \* set of follow-up lists
           Seed,       \* TRUE: one event (id 0) is scheduled at the start time before anything else
           Starts,     \* set of start times
-          Limits      \* set of limit records
+          Limits,     \* set of limit records
+          HeapInit    \* the event set's notion of "current instant" before the first dispatch: FALSE = time 0 (calendar
+                      \* queue: CQueue starts its clock at 0 whatever the start time), TRUE = the start time (BinaryHeap
+                      \* backend: last_event_simtime starts as Builder::start_time).  Only matters for events scheduled
+                      \* before the run at exactly a non-zero start time
 
 VARIABLES pending,    \* set of [id, t, cls]
           cur,        \* event-set time: timestamp of the last dispatched event (0 before)
@@ -57,10 +61,11 @@ ActiveLimit == CASE mode.k = "n"     -> [k |-> "ec", n |-> mode.stop]
 CanDispatch == /\ mode.k # "idle" /\ pending # {}
                /\ ~Applies(ActiveLimit, itr + 1, MinOf(pending).t)
 
-Init == /\ cur = 0 /\ itr = 0 /\ phase = "ready"
+Init == /\ itr = 0 /\ phase = "ready"
         /\ mode = [k |-> "idle"] /\ nsteps = 0 /\ next = 0
         /\ now \in Starts /\ limit \in Limits
-        /\ pending = IF Seed THEN {[id |-> 0, t |-> now, cls |-> IF now = 0 THEN 0 ELSE 1]} ELSE {}
+        /\ cur = IF HeapInit THEN now ELSE 0
+        /\ pending = IF Seed THEN {[id |-> 0, t |-> now, cls |-> IF now = cur THEN 0 ELSE 1]} ELSE {}
         /\ nid = IF Seed THEN 1 ELSE 0
         /\ ret = [op |-> "cfg", start |-> now, limit |-> limit, seed |-> Seed]
 
